@@ -2,6 +2,7 @@
    kernel-evaluated width condition); every repeated element consumes at least one byte (elemsOK). -/
 import FinProto.Obl.Side
 import FinProto.Props.DecLemmas
+import FinProto.Props.CostProofs
 namespace FinProto.Obl
 open FinProto
 
@@ -9,5 +10,12 @@ theorem C09_widths : Gen.env.widthsOK = true := gen_widthsOK
 theorem C09_elems : Gen.env.elemsOK = true := gen_elemsOK
 theorem C09_no_unrecognised_statement : Gen.env.noOpaque = true := gen_noOpaque
 theorem C09_no_panic : ∀ f ty, NoPanic (decTy Gen.env f ty) := dec_no_panic gen_widthsOK
+
+/-- time proportional to the input: every loop iteration consumes at least one byte or ends the loop -/
+theorem C09_linear_time (objSize : Nat → Nat) (f ty : Nat) (b : Bytes) :
+    (decTyC Gen.env objSize f ty b).2.steps ≤ stepConst Gen.env f ty * (b.length + 1) :=
+  decTyC_steps_linear objSize gen_elemsOK f ty b
+theorem C09_cost_projection (objSize : Nat → Nat) (f ty : Nat) (b : Bytes) :
+    (decTyC Gen.env objSize f ty b).1 = decTy Gen.env f ty b := decTyC_fst Gen.env objSize f ty b
 
 end FinProto.Obl
